@@ -39,7 +39,7 @@ Expect(r) ==
     [] OTHER -> [ok |-> FALSE, out |-> in, ret |-> 0, extra |-> FALSE]
 
 RowOk(r) ==
-  IF r.f = "adjust_owned" THEN r.ret = (IF W > 1 /\ r.a2 = 1 THEN 1 ELSE 0)
+  IF r.f = "adjust_owned" THEN r.ret = (IF W > 1 /\ r.a2 = 1 /\ ~r.pb THEN 1 ELSE 0)
   ELSE LET e == Expect(r) IN e.ok /\ r.proj /\ r.out = e.out /\ r.ret = e.ret /\ e.extra
 
 Init == k = 1
